@@ -157,3 +157,29 @@ def der_length_roundtrip(r: IntList, n: Int):
     blen(n // 64)
     blen(n // 128)
     blen(n // 256)
+
+
+@uninterpreted
+def is_dflt(type_id, value) -> Bool:
+    """`value` equals the DEFAULT of the component `type_id` (ghost; BaseType.is_default and its overrides define it)"""
+    return False
+
+
+def oid_first_arcs(first):
+    """X.690 8.19.4: the first subidentifier is 40 * arc1 + arc2 with arc1 in 0..2 and arc2 <= 39 unless arc1 = 2"""
+    if first < 40:
+        return [0, first]
+    if first < 80:
+        return [1, first - 40]
+    return [2, first - 80]
+
+
+def b128_val(d, i, end, acc) -> Int:
+    """value of the base-128 digits d[i:end] (bit 8 = continuation flag, ignored), most significant first, continuing acc"""
+    if i >= end:
+        return acc
+    return b128_val(d, i + 1, end, acc * 128 + d[i] % 128)
+
+
+def b128_val__facts(d, i, end, acc, r):
+    return implies(acc >= 0 and typed_bytes(d), r >= 0)
